@@ -402,6 +402,24 @@ def _scenario_single(case, res, log):
         rejected += 1
     res.probes.inc("flips_rejected", rejected)
     res.faults.inc("bit_flip", len(bits))
+    # (5) the application replaces the secret of its long-lived key object: from then on the new secret signs
+    # and verifies, the retired one does not
+    new_secret = bytes((b2 + 1) % 256 for b2 in secret) + b"\x5a"
+    key.secret = new_secret
+    if key.name in _BARE_RING:
+        _BARE_RING[key.name] = new_secret  # (the application's ring of bare secrets is updated as well)
+    _set_clock(case["time"])
+    q5 = _query(case)
+    q5.use_tsig(key, fudge=case["fudge"])
+    w5 = q5.to_wire()
+    ok5, why5, _f5 = T.verify_single(new_secret, kn, alg, w5)
+    if not ok5:
+        raise Violation("C14:mac-differs-from-rfc", f"{tag}: after key.secret was replaced the library does not sign with the new secret: {why5}")
+    old_signed, _m5 = T.sign_single(secret, kn, alg, _response_wire(case, q5), case["time"], case["fudge"], request_mac=q5.mac)
+    r5 = _real_verify(old_signed, key, request_mac=q5.mac)
+    if _accepts(r5):
+        raise Violation("C14:wrong-identity-verified", f"{tag}: a message signed with the retired secret verifies after key.secret was replaced")
+    res.probes.inc("secret_replaced_in_place")
     log.add("single", alg, len(signed), rejected)
 
 
@@ -450,9 +468,10 @@ def _scenario_identity(case, res, log):
         signed, _ = T.sign_single(secret, kn, alg, rw, t_signed, case["fudge"], request_mac=None)
         want = {"BadSignature"}
     else:
-        err = [16, 17, 18, 22, 23][case["flipbit"] % 5]
+        err = [16, 17, 18, 22, 23, 1, 9, 15, 4095][case["flipbit"] % 9]
         signed, _ = T.sign_single(secret, kn, alg, rw, t_signed, case["fudge"], request_mac=req_mac, error=err)
-        want = {16: {"PeerBadSignature"}, 17: {"PeerBadKey"}, 18: {"PeerBadTime"}, 22: {"PeerBadTruncation"}, 23: {"PeerError"}}[err]
+        # any non-zero TSIG error is the peer reporting a failure, whatever its number
+        want = {16: {"PeerBadSignature"}, 17: {"PeerBadKey"}, 18: {"PeerBadTime"}, 22: {"PeerBadTruncation"}}.get(err, {"PeerError"})
     r = _real_verify(signed, vkey, request_mac=q.mac)
     res.faults.inc("identity_" + kind)
     if _accepts(r):
@@ -628,6 +647,13 @@ def _scenario_multi(case, res, log):
         if not accepted:
             raise Violation("C14:genuine-rejected", f"{tag}: genuine multi-envelope stream rejected: {failure[1] if failure else 'last envelope had no TSIG'}")
         res.probes.inc("reference_signed_verified")
+        # a stand-alone message read with multi=False is a first message whatever context is passed along
+        alone, _ma = T.sign_single(secret, kn, alg, wires[0], case["time"], c2["fudge"], request_mac=f["mac"])
+        _set_clock(float(case["time"]))
+        ra = _real_verify(alone, key, request_mac=q.mac, multi=False, ctx=ctx)
+        if not _accepts(ra):
+            raise Violation("C14:genuine-rejected", f"{tag}: a genuine stand-alone response read with multi=False and the context of an earlier stream is rejected: {ra[1]}")
+        res.probes.inc("standalone_with_stale_context")
     else:
         res.faults.inc("envelope_" + (fired or "jump_clock"))
         if jump and n == 1:
